@@ -5,6 +5,7 @@ propagated, in every registry that follows a write which can add, change or remo
 post-create, post-modify, post-batch-modify, post-delete, post-repl-refresh, post-repl-incremental-conflict (last),
 post-repl-incremental (before MemberOf); and the write operations call those registries after the backend write on
 every success path.
+ K4-deleted-means-recycled-or-tombstone  post_repl_incremental's liveness tests use mask_recycled_ts on pre- and post-image (no partial predicate).
 Not decided: the plugin's own logic (that the checks/removals it performs leave no dangling reference after
 arbitrary histories).
 """
